@@ -543,7 +543,7 @@ func mustBase(e *hx.Env, b *baseInfo, err error) *baseInfo {
 	return b
 }
 
-func caseOf(j *job) Case { return Case{Base: j.b.Base, Mut: j.mut, Extra: j.extra} }
+func caseOf(j *job) Case { return Case{Base: j.b.Base, Mut: j.mut, Extra: j.extra, Shape: j.shape} }
 
 func run(e *hx.Env) {
 	only := map[string]bool{}
